@@ -1,5 +1,6 @@
 import FH.RuleLemmas
 import FH.PtrAuth
+import FH.SignLemmas
 /-!
 # C16 — aarch64 pointer-authentication bits are stripped from everything reported
 -/
@@ -20,6 +21,54 @@ theorem C16_lr_stays_stripped {rule : RuleA64} {first : Bool} {regs regs' : Regs
     (h : execA64 rule first regs mem = .ret res regs') :
     regs'.mask = regs.mask ∧ Stripped regs'.mask regs'.lr :=
   execA64_lr_stripped hs h
+
+/-- **Signed stack, one rule step.** `mem'` is `mem` with authentication bits (any bits outside
+the mask) added to the words at the addresses in `S` - the saved return addresses of a
+`pacibsp` program. If the word the rule reads as saved *frame pointer* is not one of them, the
+step on the signed stack is identical to the step on the unsigned stack: same result, same
+registers (so the reported address and the `lr` left behind are those of the unsigned stack). -/
+theorem C16_signed_step_equals_unsigned {S : Nat → Prop} {mem mem' : Mem} (rule : RuleA64)
+    (first : Bool) (regs : RegsA64) (ht : SignedTwin regs.mask S mem mem')
+    (hfp : ∀ a, fpSlotA64 rule first regs = some a → ¬ S a) :
+    execA64 rule first regs mem' = execA64 rule first regs mem :=
+  execA64_signed rule first regs ht hfp
+
+/-- The same for the uncacheable DWARF path (`genericA64`): any row, CFA and register rules. -/
+theorem C16_signed_generic_step_equals_unsigned {S : Nat → Prop} {mem mem' : Mem} (row : Row)
+    (first : Bool) (regs : RegsA64) (ht : SignedTwin regs.mask S mem mem')
+    (hfp : ∀ cfa a, evalCfa (getA64 regs) row.cfa = some cfa →
+      regRuleSlot (getA64 regs) row.fp cfa = some a → ¬ S a) :
+    genericA64 row first regs mem' = genericA64 row first regs mem :=
+  genericA64_signed row first regs ht hfp
+
+/-- **Signed stack, whole walk** (unbounded length, any assignment of rules to frames): if along
+the walk over the unsigned stack no word read as a saved frame pointer is a signed word, the
+walk over the signed stack yields exactly the same frames and the same ending. -/
+theorem C16_signed_walk_equals_unsigned {S : Nat → Prop} {mem mem' : Mem} (rules : Nat → RuleA64)
+    (mask : Nat) (ht : SignedTwin mask S mem mem') (n : Nat) (regs : RegsA64)
+    (hfp : HoldsAlong (ruleWalkStepA64 rules) mem
+      (fun s => s.2.mask = mask ∧ ∀ a, fpSlotA64 (rules s.1) (s.1 == 0) s.2 = some a → ¬ S a)
+      n (0, regs)) :
+    walkWith (ruleWalkStepA64 rules) mem' n (0, regs) =
+      walkWith (ruleWalkStepA64 rules) mem n (0, regs) := by
+  apply walk_congr (ruleWalkStepA64 rules) mem mem' _ _ n (0, regs) hfp
+  intro s ⟨hm, hs⟩
+  simp only [ruleWalkStepA64]
+  rw [execA64_signed (rules s.1) (s.1 == 0) s.2 (by rw [hm]; exact ht) hs]
+
+deriving instance DecidableEq for Out
+
+/-- Non-vacuity: a two-word frame record whose saved return address carries a signature in
+bits 24..31 is a signed twin of the unsigned record under a 24-bit mask, and the frame
+pointer rule reads its frame pointer from an unsigned word. -/
+example :
+    let mem : Mem := fun a => if a = 0x1000 then some 0x2000 else if a = 0x1008 then some 0x401234 else none
+    let mem' : Mem := fun a => if a = 0x1000 then some 0x2000 else if a = 0x1008 then some 0xab401234 else none
+    let regs : RegsA64 := { mask := 0xffffff, lr := 0x400100, sp := 0xff0, fp := 0x1000 }
+    execA64 .useFramePointer false regs mem' = execA64 .useFramePointer false regs mem ∧
+      execA64 .useFramePointer false regs mem = .ret (.frame 0x401234)
+        { mask := 0xffffff, lr := 0x401234, sp := 0x1010, fp := 0x2000 } := by
+  decide
 
 /-- `new_with_ptr_auth_mask` produces a stripped `lr`. -/
 theorem C16_constructor_strips (mask lr : Nat) : Stripped mask (strip mask lr) :=
